@@ -100,8 +100,8 @@ def extract_ts():
     T["lit"] = m.group(1)
     m = need(re.search(r"case 'Variable': \{ return '([^']*)' \+ argumentValue\.name; \}", body), "TS Variable case")
     T["var"] = m.group(1)
-    m = need(re.search(r"case 'String': \{ return '([^']*)' \+ argumentValue\.value\.replaceAll\(/\\W/g, '([^']*)'\); \}", body), "TS String case")
-    T["str"], T["str_repl"] = m.group(1), m.group(2)
+    m = need(re.search(r"case 'String': \{ return '([^']*)' \+ argumentValue\.value\.replaceAll\(/\\W(\+?)/g, '([^']*)'\); \}", body), "TS String case")
+    T["str"], T["str_collapse"], T["str_repl"] = m.group(1), m.group(2) == "+", m.group(3)
     m = need(re.search(r"case 'Enum': \{ return '([^']*)' \+ argumentValue\.value; \}", body), "TS Enum case")
     T["enum"] = m.group(1)
     i = src.index("function getNetworkResponseKey(\n  astNode: NormalizationLinkedField | NormalizationScalarField,")
@@ -209,7 +209,12 @@ class SLeaf:
                 q.add(z3.Implies(i >= self.slen, c == S("a")))
                 rr = S(T["str_repl"])
                 r = z3.If(i < self.slen, cat(r, z3.If(z3.InRe(c, keep_re), c, S(X["str_repl"]))), r)
-                t = z3.If(i < self.slen, cat(t, z3.If(z3.InRe(c, WORD_RE), c, z3.If(z3.InRe(c, ASTRAL_RE), cat(rr, rr), rr))), t)
+                if T.get("str_collapse"):
+                    # /\\W+/g: a maximal run of non-word UTF-16 units becomes one replacement
+                    prev_nonword = z3.BoolVal(False) if i == 0 else z3.Not(z3.InRe(self.cps[i - 1], WORD_RE))
+                    t = z3.If(i < self.slen, cat(t, z3.If(z3.InRe(c, WORD_RE), c, z3.If(prev_nonword, S(""), rr))), t)
+                else:
+                    t = z3.If(i < self.slen, cat(t, z3.If(z3.InRe(c, WORD_RE), c, z3.If(z3.InRe(c, ASTRAL_RE), cat(rr, rr), rr))), t)
             self.payload += [self.slen] + self.cps
             self.rust = cat(S(X["str"]), r)
             self.ts = cat(S(T["str"]), t)
@@ -406,6 +411,9 @@ PROBES = [
     {"field": "f", "args": [["in", {"k": "obj", "e": []}]]},
     {"field": "f", "args": [["a", {"k": "int", "v": "9007199254740992"}]]},
     {"field": "f", "args": [["a", {"k": "str", "cp": [233]}]]},
+    {"field": "search", "args": [["query", {"k": "str", "cp": [104, 44, 32, 119]}]]},
+    {"field": "f", "args": [["a", {"k": "bool", "v": False}], ["b", {"k": "int", "v": "0"}], ["c", {"k": "enum", "n": "A_B"}], ["d", {"k": "var", "n": "x_1"}]]},
+    {"field": "f", "args": [["in", {"k": "obj", "e": [["x", {"k": "str", "cp": [97, 95, 49]}], ["y", {"k": "null"}]]}]]},
 ]
 
 
@@ -534,7 +542,7 @@ def psweep(name, items, build, portfolio=False, nproc=14):
     return total
 
 
-PROBES_IN_KNOWN_CLASS = [PROBES[4], PROBES[8]]      # "a b" (sanitised), "\u00e9" (sanitised): string-sanitisation class
+PROBES_IN_KNOWN_CLASS = [PROBES[4], PROBES[8], PROBES[9]]      # strings with sanitised characters: string-sanitisation class (collision test only)
 
 
 def main():
@@ -568,13 +576,14 @@ def main():
         rk = run_rust(binary, PROBES)
         tk = run_ts(T0, [to_ts_ast(p) for p in PROBES])
         for pr, r_nat, t_nat in zip(PROBES, rk, tk):
-            if pr in PROBES_IN_KNOWN_CLASS:
-                continue
+            # agreement is expected on every probe (none contains a non-BMP character), legality on every probe
+            # (none contains a negative integer); only the collision test below skips the sanitised strings
             if r_nat != t_nat:
                 violations.append(("compiler and runtime disagree on probe %s: %r vs %r" % (json.dumps(pr), r_nat, t_nat), replay([pr], "probe disagreement", "C12_probe_agree")))
             elif not GRAPHQL_NAME.match(r_nat):
                 violations.append(("illegal key on probe %s: %r" % (json.dumps(pr), r_nat), replay([pr], "probe illegal key", "C12_probe_legal")))
-        if len(set(rk)) != len(rk):
+        rk_inj = [k for pr, k in zip(PROBES, rk) if pr not in PROBES_IN_KNOWN_CLASS]
+        if len(set(rk_inj)) != len(rk_inj):
             violations.append(("two different probes get the same key: %r" % (rk,), replay(PROBES, "probe collision", "C12_probe_inj")))
         samples.append({"native_probe_agreement": [json.dumps(PROBES[5]), rk[5], tk[5]]})
 
